@@ -5,7 +5,7 @@
    instruction):   pcT i  = cpu.get_program_counter()
                    spT i  = cpu.get_stack_pointer()
                    opT i  = ram[pc]                       (0 = BRK: execute_instruction returns TestSuccess, executes nothing)
-                   retT i = (1 + ram[$100+sp+1] + 256*ram[$100+sp+2]) as u16      (what step_out computes as `will_return_to`)
+                   retT i = (1 + ram[$100+sp+1] + 256*ram[$100+sp+2]) as u16      (what the pinned step_out computed as `will_return_to`)
    A step command started at index i returns the index it leaves the machine at; None = the loop did not end within
    the fuel (the session thread would still be inside the command). *)
 From Coq Require Import ZArith Bool.
@@ -35,16 +35,43 @@ Section DapStep.
   Definition step_over (fuel : nat) (i : Z) : option Z :=
     if is_jsr i then over_loop fuel (pcT i + 3) i else Some (exec_in i).
 
-  (* the loop of step_out:  loop { if pc == will_return_to { return }; if execute_instruction() != Running { return } } *)
-  Fixpoint out_loop (fuel : nat) (target : Z) (i : Z) : option Z :=
+  (* step_out (after fix: nested calls are counted):
+       loop { opcode = ram[pc]; if execute_instruction() != Running { return };
+              match opcode { JSR => nested += 1, RTS if nested == 0 => return, RTS => nested -= 1, _ => {} } } *)
+  Fixpoint out_loop (fuel : nat) (nested : Z) (i : Z) : option Z :=
+    match fuel with
+    | O => None
+    | S f =>
+        if finT i then Some i
+        else if is_jsr i then out_loop f (nested + 1) (i + 1)
+        else if is_rts i then (if nested =? 0 then Some (i + 1) else out_loop f (nested - 1) (i + 1))
+        else out_loop f nested (i + 1)
+    end.
+
+  Definition step_out (fuel : nat) (i : Z) : option Z :=
+    if spT i >? 253 then Some i else out_loop fuel 0 i.
+
+  (* step_out as pinned (before the fix):
+       will_return_to = 1 + ram[$100+sp+1] + 256*ram[$100+sp+2];
+       loop { if pc == will_return_to { return }; if execute_instruction() != Running { return } } *)
+  Fixpoint out_loop_pinned (fuel : nat) (target : Z) (i : Z) : option Z :=
     match fuel with
     | O => None
     | S f =>
         if pcT i =? target then Some i
         else if finT i then Some i
-        else out_loop f target (i + 1)
+        else out_loop_pinned f target (i + 1)
     end.
 
-  Definition step_out (fuel : nat) (i : Z) : option Z :=
-    if spT i >? 253 then Some i else out_loop fuel (retT i) i.
+  Definition step_out_pinned (fuel : nat) (i : Z) : option Z :=
+    if spT i >? 253 then Some i else out_loop_pinned fuel (retT i) i.
+
+  (* classes of the findings, evaluated by the check on the run of the failing session (extracted) *)
+
+  (* at index i, in the frame opened by the call at index c: the two bytes above the stack pointer are not that call's
+     return address (the subroutine has pushed something) *)
+  Definition Known_stepout_stack_dirty (c i : Z) : bool := negb (retT i =? pcT c + 3).
+
+  (* instruction k jumps to itself *)
+  Definition Known_breakpoint_self_loop (k : Z) : bool := pcT (k + 1) =? pcT k.
 End DapStep.
